@@ -120,8 +120,10 @@ def native_end_to_end(ctx):
               ('g2_h2c_shake128', 'shake_128', c13.rfc_xof, 'G2', 2)]
     shapes = [(0, 0), (1, 43), (64, 255), (65, 1)] if ctx.tier == 'quick' else [(0, 0), (0, 255), (1, 43), (55, 16), (64, 255), (65, 1), (128, 254), (200, 255)]
     cases = []
-    for op, hname, f, g, cnt in suites:
-        for ml, dl in shapes:
+    # order: for one (message, tag) every suite in a row, random-oracle mode immediately followed by non-uniform mode of the same expander
+    # -- the result must depend on (message, tag) only, not on what was hashed before on the same thread
+    for ml, dl in shapes:
+        for op, hname, f, g, cnt in suites:
             m, d = c13._bytes('m%d' % ml, ml), c13._bytes('d%d' % dl, dl)
             m_ = 1 if g == 'G1' else 2
             okm = f(hname, m, d, cnt * m_ * 64)
@@ -167,7 +169,7 @@ def run(ctx):
         c13_euf.run_part(ctx)
         chk.discharge()
         c13.confirm_euf_failures(ctx)
-    except Inconclusive as e_:
+    except Exception as e_:          # whatever stops the symbolic part, the native differential below still runs
         ctx.inconclusive('encoder (expanders): %s' % e_)
     native_end_to_end(ctx)
     chk.assumptions += ['hash_to_field = RFC 9380 5.2 (C13), map_to_curve / map2_to_curve = RFC composition (C14) of SSWU (C15), isogeny (C16), h_eff clearing (C17)',
